@@ -1,5 +1,6 @@
 """C11 — pure circuits evaluate to the unitary they describe (R11.1–R11.5; engines A, C′, E)."""
 import ast
+import warnings
 import numpy as np
 from ..core import AnalysisError
 from ..tables import Fold, fold, run_body, as_matrix, NotFoldable, REF_CONST, REF_ROT, SAMPLES, close, ctrl, NumMod
@@ -87,7 +88,9 @@ def check_tables(ctx):
                 ctx.need(idx is not None and "array" in local, "Controlled.__init__: unrecognised block assignment %s" % ast.unparse(s))
                 src = ast.unparse(s.value)
                 val = fold(s.value, env) if "controlled" not in src else U
-                local["array"][idx] = val
+                with warnings.catch_warnings():
+                    warnings.simplefilter("ignore")          # a complex block written into a real array loses its imaginary part: the comparison below reports it
+                    local["array"][idx] = val
                 if "controlled" in src:
                     local["_target_expr"] = s.value
         arr = local.get("array")
